@@ -43,6 +43,25 @@ def prunable(n):
 
 
 def check_graph(g, res, count=True, ever_atts=()):
+    """one prune, judged; then (graphs with an attacker) the pruned graph goes on living: a surviving step becomes an
+    entry point through the attacker's public list, is relabelled non-viable, and the graph is pruned a second time"""
+    f = _check_graph_once(g, res, count, ever_atts)
+    if f or not g.attackers:
+        return f
+    a0 = g.attackers[0]
+    cand = [n for n in g.nodes if n.type in ('or', 'and') and not any(n is e for e in a0.entry_points)]
+    if not cand:
+        return None
+    s = cand[len(cand) // 2]
+    a0.entry_points.append(s)
+    s.is_viable = False
+    if count:
+        res.count('class:second-prune-after-entry-point-appended')
+    f = _check_graph_once(g, res, False, ever_atts)
+    return ('second-' + f[0], 'second prune of the same graph (after %s became an entry point of %s and non-viable): %s' % (s.full_name, a0.name, f[1])) if f else None
+
+
+def _check_graph_once(g, res, count=True, ever_atts=()):
     from maltoolbox.attackgraph.analyzers.apriori import prune_unviable_and_unnecessary_nodes
     nodes = list(g.nodes)
     expect = [n for n in nodes if not prunable(n)]
@@ -91,7 +110,7 @@ def check_graph(g, res, count=True, ever_atts=()):
         now = (n.id, n.type, n.name, n.is_viable, n.is_necessary, n.defense_status, n.existence_status, n.ttc, list(n.tags), n.extras)
         if now != attrs[id(n)]:
             return ('prune:changes-surviving-node', 'node %s changed from %s to %s' % (n.full_name, attrs[id(n)], now))
-    f = agraph.check_invariants(g, nodes, list(g.attackers) + list(ever_atts), {n.full_name for n in nodes}) or agraph.check_compromise_symmetry(g, list(g.attackers))
+    f = agraph.check_invariants(g, nodes, list(g.attackers) + list(ever_atts), {n.full_name for n in nodes}) or agraph.check_compromise_symmetry(g, list(g.attackers), ever_nodes=nodes)
     if f:
         return ('prune-result:' + f[0], 'after pruning: ' + f[1])
     for n in gone:
